@@ -54,7 +54,7 @@ DIRECTED = [
     ("random-2x2", "actor Q0.1\nactor Q0.1\n", [("none", "BeFS", 1), ("dpor", "BeFS", 1), ("sdpor", "BeFS", 1), ("odpor", "BeFS", 1)]),
     # three critical sections: 3! orders
     ("mutex-3", "mutex 1\nactor L0 O0 U0\nactor L0 O0 U0\nactor L0 O0 U0\n",
-     [("none", "BeFS", 1), ("dpor", "DFS", 1), ("sdpor", "DFS", 7), ("dpor", "BeFS", 2), ("odpor", "BeFS", 1), ("none", "DFS", 1), ("odpor", "DFS", 1)]),
+     [("none", "BeFS", 1), ("dpor", "DFS", 1), ("sdpor", "DFS", 7), ("dpor", "BeFS", 2), ("odpor", "BeFS", 1), ("odpor", "BeFS", 3), ("none", "DFS", 1), ("odpor", "DFS", 1)]),
     # notify against a timed wait: signalled (w0=0) iff the waiter registered before the notification
     ("cond-timedwait-vs-notify", "mutex 1\ncond 1\nactor N0\nactor L0 w0.0 U0\n", []),
     ("cond-timedwait-vs-notify-assert", "mutex 1\ncond 1\nactor N0\nactor L0 w0.0 E0 U0\n", []),
@@ -73,6 +73,8 @@ DIRECTED = [
     ("lock-order", "mutex 2\nactor L0 L1 U1 U0\nactor L1 L0 U0 U1\n", []),
     # try_lock racing with a lock whose owner then fails an assertion (exploration after a soft-locked state)
     ("trylock-assert", "mutex 1\nactor T0 I2 O0 U0 L0 O0 U0\nactor Y L0 O0 E0\n", [("sdpor", "DFS", 868)]),
+    # MC_random next to a join (odpor: "don't execute disabled transitions", bogus crash report)
+    ("random-join", "actor Q0.1 Q0.1\nactor J0 Q0.1\n", []),
     ("recv-unmatched", "mbox 1\nactor G0\nactor Y\n", []),
     ("mbox-2to1", "mbox 1\nactor S0.1\nactor S0.2\nactor G0 G0\n", []),
     ("sem-handover", "sem 0 1b\nactor P0 P1 o1 V1\nactor P1 o1 V1 V0\n", []),
